@@ -425,6 +425,28 @@ class C14(F.Check):
             key = {"expression": e, "why": why}
             closed("irr_arith_" + nm, "return std::is_arithmetic<decltype(%s)>::value;" % e, collapse,
                    "result is a raw number exactly when the units cancel to the unitless unit (magnitude exactly 1), irrational leftovers included", key)
+        # roots of roots and roots of units whose scale factor is itself a root: exponents multiply exactly (1/2 * 1/2 = 1/4, 1/3 * 1/3 = 1/9)
+        NEST = [
+            ("sqrt_sqrt_m", "sqrt(sqrt(meters(16.0)))", "UnitPowerT<Meters, 1, 4>"),
+            ("cbrt_cbrt_m", "cbrt(cbrt(meters(8.0)))", "UnitPowerT<Meters, 1, 9>"),
+            ("sqrt_cbrt_m", "sqrt(cbrt(meters(8.0)))", "UnitPowerT<Meters, 1, 6>"),
+            ("cbrt_sqrt_m", "cbrt(sqrt(meters(8.0)))", "UnitPowerT<Meters, 1, 6>"),
+            ("sqrt3_m", "sqrt(sqrt(sqrt(meters(256.0))))", "UnitPowerT<Meters, 1, 8>"),
+            ("sqrt_sqrt_m4", "sqrt(sqrt(int_pow<4>(meters(2.0))))", "Meters"),
+            ("cbrt_cbrt_m9", "cbrt(cbrt(int_pow<9>(meters(2.0))))", "Meters"),
+            ("sqrt_of_root2m", "sqrt((meters * root<2>(mag<2>()))(4.0))", "decltype(root<2>(Meters{}) * root<4>(mag<2>()))"),
+            ("pow4_sqrt_sqrt", "int_pow<4>(sqrt(sqrt(meters(16.0))))", "Meters"),
+            ("inv_sqrt_sqrt", "1.0 / sqrt(sqrt(meters(16.0)))", "UnitPowerT<Meters, -1, 4>"),
+        ]
+        for nm, e, ut in NEST:
+            closed("nest_unit_" + nm, "return are_units_quantity_equivalent(typename AuvUnitOf<decltype(%s)>::type{}, %s{});" % (e, ut), True,
+                   "unit of a nested root / power is the unit with the PRODUCT of the exponents", {"expression": e, "expected_unit": ut})
+        closed("nest_collapse", "return std::is_arithmetic<decltype(int_pow<4>(sqrt(sqrt(meters(16.0)))) / meters(1.0))>::value;", True,
+               "(m^(1/4))^4 / m collapses to a raw number", {"expression": "int_pow<4>(sqrt(sqrt(meters(16.0)))) / meters(1.0)"})
+        closed("nest_type_pow", "return std::is_same<UnitPowerT<UnitPowerT<Meters, 1, 2>, 1, 2>, UnitPowerT<Meters, 1, 4>>::value && "
+               "std::is_same<UnitPowerT<UnitPowerT<Seconds, 2, 3>, 3, 4>, UnitPowerT<Seconds, 1, 2>>::value && "
+               "std::is_same<UnitPowerT<UnitPowerT<Feet, 1, 3>, 1, 3>, UnitPowerT<Feet, 1, 9>>::value;", True,
+               "UnitPowerT of UnitPowerT multiplies rational exponents exactly (non-coprime denominators included)", {})
         for nm, ut, conv in (("uno", "Unos", True), ("pi_uno", "decltype(Unos{} * Magnitude<Pi>{})", False),
                              ("sqrt10_uno", "decltype(root<2>(Unos{} * mag<10>()))", False), ("pct", "Percent", False),
                              ("inv_pi_uno", "decltype(Unos{} / Magnitude<Pi>{})", False), ("rad", "Radians", False)):
